@@ -430,6 +430,9 @@ async fn run_scenario(out: &mut dyn Write, viol: &mut u64, base: &Utf8PathBuf, s
     strays.sort_by_key(|s| s.0);
     let inj3 = inject.clone();
     let job_seq: Vec<Option<VariableID>> = jobs.iter().map(|j| j.id.as_ref().map(|i| i.1)).collect();
+    // when the last stray PDU of a transaction nobody runs was handed to an entity (ms), per (entity, transaction id)
+    let stray_last: Arc<std::sync::Mutex<BTreeMap<(u16, String), u128>>> = Arc::new(std::sync::Mutex::new(BTreeMap::new()));
+    let stray_last3 = stray_last.clone();
     let stray_task = tokio::task::spawn(async move {
         let start = tokio::time::Instant::now();
         for (at, to, mut pdu, seq_of) in strays {
@@ -443,6 +446,10 @@ async fn run_scenario(out: &mut dyn Write, viol: &mut u64, base: &Utf8PathBuf, s
             tokio::time::sleep_until(start + Duration::from_millis(at)).await;
             if let Some(tx) = inj3.get(&to) {
                 delivered3.lock().unwrap().entry(to).or_default().push(hdr_repr(&pdu));
+                if seq_of.is_none() && pdu.header.direction == Direction::ToReceiver {
+                    let id = TransactionID(pdu.header.source_entity_id, pdu.header.transaction_sequence_number);
+                    stray_last3.lock().unwrap().insert((to, id_repr(&id)), t0.elapsed().as_millis());
+                }
                 let _ = tx.send(pdu).await;
             }
         }
@@ -659,6 +666,28 @@ async fn run_scenario(out: &mut dyn Write, viol: &mut u64, base: &Utf8PathBuf, s
             if !end_ms.contains_key(&format!("{}@{}", idr, e)) {
                 *viol += 1;
                 oracle(out, "C03", "daemon_bounded", &format!("transaction {} at entity {} has not ended after {} s || {}", idr, e, sc.horizon_s, ctx()));
+            }
+        }
+    }
+    // C11: a receive transaction started by a stray PDU that nobody continues ends by its own limits - the limits
+    // configured for the entity it claims to come from: (limit + 2) periods of each of its three timers after the
+    // last such PDU is more than the inactivity limit, the NAK limit and the positive-ACK limit of its closing
+    // exchange together (the transactions of the stalled peer cannot transmit at all and are left out)
+    {
+        let bound_ms = ((sc.cfg.max as u128 + 2) * (sc.cfg.ti + sc.cfg.ta + sc.cfg.tn) as u128 + 5) * 1000;
+        let total_ms = t0.elapsed().as_millis();
+        let job_ids: BTreeSet<String> = jobs.iter().filter_map(|j| j.id.as_ref().map(id_repr)).collect();
+        for ((e, idr), last) in stray_last.lock().unwrap().iter() {
+            if job_ids.contains(idr) || (sc.stalled_peer && idr.starts_with("3.")) {
+                continue;
+            }
+            let spawned = seen_recv_ids.get(e).map_or(false, |s| s.contains(idr));
+            if spawned {
+                *tally.entry("stray_started").or_insert(0) += 1;
+            }
+            if spawned && last + bound_ms <= total_ms && !end_ms.contains_key(&format!("{}@{}", idr, e)) {
+                *viol += 1;
+                oracle(out, "C11", "stray_ends_by_limits", &format!("receive transaction {} at entity {}, started by a stray PDU at {} ms that nobody continued, has not ended {} ms later (its limits allow {} ms) || {}", idr, e, last, total_ms - last, bound_ms, ctx()));
             }
         }
     }
@@ -924,6 +953,16 @@ pub fn run(opts: &Opts, out: &mut dyn Write) {
                 _ => (mk_pdu(Direction::ToSender, TransmissionMode::Acknowledged, foreign, 600 + rng.below(50) as u16, 3 - to, fin(Condition::NoError, DeliveryCode::Complete)), None),
             };
             strays.push((at, to, p, seq_of));
+        }
+        // every scenario has a stray that starts a receive transaction which nobody continues, in either mode
+        {
+            let to = *rng.pick(&[1u16, 2]);
+            let p = if rng.chance(1, 2) {
+                mk_pdu(Direction::ToReceiver, TransmissionMode::Acknowledged, 3 - to, 750 + rng.below(50) as u16, to, PDUPayload::FileData(FileDataPDU::Unsegmented(UnsegmentedFileData { offset: 0, file_data: vec![1, 2, 3] })))
+            } else {
+                mk_pdu(Direction::ToReceiver, TransmissionMode::Acknowledged, 3 - to, 750 + rng.below(50) as u16, to, PDUPayload::Directive(Operations::EoF(EndOfFile { condition: Condition::NoError, checksum: 0, file_size: 3, fault_location: None })))
+            };
+            strays.push((rng.below(1000), to, p, None));
         }
         // every scenario has PDUs of the daemons' own send transactions reflected back to their originators, spread over the
         // time in which those transactions end and their entries are cleaned up (at most 1 s later)
